@@ -13,6 +13,7 @@ FINDINGS = [
          example="exmod -m c20pkg --emit json_schema -o out"),
 ]
 FIXED = [
+    'fixed: property=C20 422f48f exmod --extra-module <m> raised AssertionError on every run, dry or real (the list collected by argparse was passed where one module name is expected); nothing was written',
     "fixed: property=C20 861834f exmod --dry-run with a SQLAlchemy emit kind and --emit-sqlalchemy-submodule created out/sqlalchemy_mod/ with three files (or died with FileNotFoundError when out did not exist)",
     "fixed: property=C20 6d40744 exmod --emit sqlalchemy and --emit pydantic raised TypeError (unexpected keyword argument 'sqlalchemy_name' / 'pydantic_name') on every real run",
 ]
